@@ -141,6 +141,16 @@ def worker_env():
     return env
 
 
+def _killpg(p):
+    try:
+        os.killpg(p.pid, signal.SIGKILL)
+    except Exception:
+        try:
+            p.kill()
+        except Exception:
+            pass
+
+
 def run_shards(pid, shards, tier, seed, timeout=900, nproc=None):
     """Run every shard in its own python process (up to nproc at a time).
     Returns (Result, lost) where lost lists shards that died / timed out."""
@@ -172,6 +182,7 @@ def run_shards(pid, shards, tier, seed, timeout=900, nproc=None):
                     stderr=subprocess.STDOUT,
                     env=env,
                     cwd=tmp,
+                    start_new_session=True,  # own process group: helpers it spawns can be swept with killpg
                 )
                 running[i] = (p, of, lf, time.time(), sh)
             time.sleep(0.05)
@@ -180,12 +191,13 @@ def run_shards(pid, shards, tier, seed, timeout=900, nproc=None):
                 rc = p.poll()
                 if rc is None:
                     if time.time() - t0 > timeout:
-                        p.kill()
+                        _killpg(p)
                         p.wait()
                         lost.append({"shard": i, "why": "watchdog %ds" % timeout})
                         del running[i]
                     continue
                 del running[i]
+                _killpg(p)  # anything the finished worker left behind in its group
                 if rc == 0 and os.path.exists(of):
                     with open(of) as f:
                         merged.merge(json.load(f))
@@ -199,7 +211,7 @@ def run_shards(pid, shards, tier, seed, timeout=900, nproc=None):
                     lost.append({"shard": i, "why": "exit %s" % rc, "log": tail})
     finally:
         for p, *_ in running.values():
-            p.kill()
+            _killpg(p)
         shutil.rmtree(tmp, ignore_errors=True)
     return merged, lost
 
